@@ -33,9 +33,11 @@ CHECKS = {
                      "faults); on every feasible path z3 shows the call raises or every returned element keeps the fault-free provenance. Pooled "
                      "reads also run in reverse submission order. Bounded model checking.",
                 design='DESIGN.md 7/C17'),
-    'C18': dict(text="Reader side: the same harness on a conforming file cut at a symbolic byte length; every read method raises or returns the "
-                     "complete file's provenance. Writer side (write-sequence prefixes incl. in-place patches) is covered by the writer harness items "
-                     "when present in the evidence. Bounded model checking.",
+    'C18': dict(text="Reader side: every read method on a conforming file cut at a symbolic byte length raises or returns the complete file's "
+                     "provenance. Writer side: the write sequence is recorded from the real converters (SEG-Y heuristic / thorough, NumPy) including "
+                     "the in-place patches through second handles; for a symbolic prefix of it and a symbolic cut inside the next write the real "
+                     "reader's header / tracefield / voxel / hash / geometry results equal those on the complete file or the file is refused. "
+                     "One known finding (hash zero until the last write). Bounded model checking.",
                 design='DESIGN.md 7/C18'),
     'C15': dict(text="Histories of 2 (all ordered pairs of nine read methods) and selected 3 operations with symbolic arguments run on real reader "
                      "objects (one reader, a second reader, a closed first reader, the emulator's seven readers on one handle, preload, chunk cache 1/2/"
